@@ -9,13 +9,20 @@ Definition valid_tr (a b : bstate) : bool :=
   | _, _ => false
   end.
 
-(** [s] = the state the listeners have been told; [probe] = the thread that performed the
-    Open -> Half-Open transition of the current phase and whose build result is still to come.
-    Only that thread's request may be admitted while the breaker is not Closed; whatever other
-    threads complete meanwhile, every transition reported must start from the state told last. *)
-Fixpoint ok_log (retry_ms : N) (s : bstate) (probe : option N) (log : list cev) : bool :=
+(** [s] = the state the listeners have been told; [pend] = the threads that performed an
+    Open -> Half-Open transition and whose build result is still to come (normally at most one;
+    a probe that a later rule rejects can still be on its way out when a later phase starts).
+    Only such a thread's request may be admitted while the breaker is not Closed; whatever other
+    threads complete meanwhile, every transition reported must start from the state told last;
+    Half-Open goes back to Open either through a failed completion (new deadline) or as the
+    roll-back of a thread that probed (a thread that never probed must not roll anything back). *)
+Fixpoint mem_n (x : N) (l : list N) : bool := match l with [] => false | y :: tl => (x =? y) || mem_n x tl end.
+Fixpoint del_n (x : N) (l : list N) : list N :=
+  match l with [] => [] | y :: tl => if x =? y then tl else y :: del_n x tl end.
+
+Fixpoint ok_log (retry_ms : N) (s : bstate) (pend : list N) (log : list cev) : bool :=
   match log with
-  | [] => match probe with None => true | Some _ => false end
+  | [] => match pend with [] => true | _ => false end
   | e :: tl =>
       match e with
       | ETrans who from to now retry =>
@@ -23,21 +30,18 @@ Fixpoint ok_log (retry_ms : N) (s : bstate) (probe : option N) (log : list cev) 
           (match from, to with
            | Open, HalfOpen => retry <=? now                      (* never before the retry deadline *)
            | Closed, Open => retry =? now + retry_ms
+           | HalfOpen, Open => (retry =? now + retry_ms) || mem_n who pend
            | _, _ => true
            end) &&
-          ok_log retry_ms to (match from, to with Open, HalfOpen => Some who | _, _ => probe end) tl
+          ok_log retry_ms to (match from, to with Open, HalfOpen => who :: pend | _, _ => pend end) tl
       | EBuild who adm =>
-          match probe with
-          | Some w =>
-              if who =? w then ok_log retry_ms s None tl          (* the probe's own result, admitted or rejected by a later rule *)
-              else (if adm then bstate_eqb s Closed else true) && ok_log retry_ms s probe tl
-          | None => (if adm then bstate_eqb s Closed else true) && ok_log retry_ms s None tl
-          end
-      | EExit _ _ _ => ok_log retry_ms s probe tl
+          if mem_n who pend then ok_log retry_ms s (del_n who pend) tl      (* a probe's own result *)
+          else (if adm then bstate_eqb s Closed else true) && ok_log retry_ms s pend tl
+      | EExit _ _ _ => ok_log retry_ms s pend tl
       end
   end.
 
-Definition ok_c16 (r : brule) (log : list cev) : bool := ok_log (br_retry_ms r) Closed None log.
+Definition ok_c16 (r : brule) (log : list cev) : bool := ok_log (br_retry_ms r) Closed [] log.
 
 (** the state the listeners were told last *)
 Fixpoint log_state (s : bstate) (log : list cev) : bstate :=
